@@ -14,7 +14,7 @@ from vlib.findings import Known
 PROPERTY = "C11"
 RULE = (
     "Arrangements of footnote references and definitions: labels from {a, b, c, A, note, x-y, 1, 2, 3, 10, superscript-2} "
-    "plus labels that are never defined; definitions at top level, inside block quotes, list items and admonition "
+    "plus labels that are never defined; headings, '(name)=' targets and '{#name}' ids that merely share a label's name; definitions at top level, inside block quotes, list items and admonition "
     "bodies, before / between / after the referencing paragraphs; references in paragraphs and inside definitions, in "
     "any order and multiplicity; duplicate definitions; unreferenced definitions; footnote_sort x "
     "footnote_transition. (enum) every arrangement of <= 3 definitions over 4 labels x reference orders, exhaustively; "
@@ -63,6 +63,7 @@ def build(case):
     seen = set()
     rw = 0
     pi = 0
+    other_names = []
 
     def ref_text(labels, container, dup):
         nonlocal rw
@@ -77,6 +78,12 @@ def build(case):
     for it in case["items"]:
         if lines:
             lines.append("")
+        if it["t"] == "name":
+            # a heading / target / attribute id that merely has the same name as a footnote label (not a definition)
+            L = it["label"]
+            lines.append({"heading": f"## {L}", "target": f"({L})=\nnamed para", "attr": "{#" + L + "}\nnamed para"}[it["kind"]])
+            other_names.append((it["kind"], L))
+            continue
         if it["t"] == "para":
             body = ref_text(it["refs"], f"P{pi}", False)
             lines.append(f"Para{pi}m {body} end".replace("  ", " "))
@@ -102,7 +109,7 @@ def build(case):
             else:
                 lines.append(body)
             defs.append({"k": k, "label": L, "line": line, "wrap": w, "dup": dup})
-    return "\n".join(lines) + "\n", {"refs": refs, "defs": defs, "nparas": pi}
+    return "\n".join(lines) + "\n", {"refs": refs, "defs": defs, "nparas": pi, "other_names": other_names}
 
 
 def model(info, sort):
@@ -115,7 +122,9 @@ def model(info, sort):
     for i, r in enumerate(live_refs):
         first.setdefault(r["label"], i)
     order = sorted(autos, key=lambda L: first.get(L, 10 ** 6)) if sort else list(autos)
-    used = set(manual)
+    # docutils' auto-numbering passes over every number that is already a *name* in the document (a manual footnote,
+    # but equally a heading titled "1"): the order is what the property fixes, not consecutiveness
+    used = set(manual) | {L for _kind, L in info.get("other_names", []) if L.isdigit()}
     labels = {L: L for L in manual}
     n = 1
     for L in order:
@@ -139,8 +148,21 @@ def check_doc(mk, case, doc, warn, info, frontend):
     footnotes = list(doc.findall(nodes.footnote))
     by_name = {}
     for f in footnotes:
-        for nm in f["names"]:
+        for nm in list(f["names"]) + list(f.get("dupnames", [])):
             by_name.setdefault(nm, []).append(f)
+    # a '(name)=' / '{#name}' with the same name as a label is a genuine duplicate *explicit target* for docutils (both
+    # lose the name): for those labels only 'exactly one footnote, text not lost' is asserted
+    clashing = {L for kind, L in info.get("other_names", []) if kind in ("target", "attr")}
+    if clashing:
+        for d in defs:
+            if d["label"] in clashing:
+                fs = by_name.get(d["label"], [])
+                marker = f"Def{d['k']}m"
+                if len(fs) != 1 or doc.astext().count(marker) != 1:
+                    vs.append(mk("C11:footnote-text-lost", case, f"{marker} once", {"footnotes": len(fs), "in_document": doc.astext().count(marker)}))
+        if len(footnotes) != len(defs):
+            vs.append(mk("C11:footnote-count", case, len(defs), len(footnotes)))
+        return vs
     # every non-duplicate definition exists exactly once, with its text
     for d in defs:
         fs = by_name.get(d["label"], [])
@@ -292,7 +314,8 @@ def classify(case, info):
 def check_case(acc, case, project=None) -> list[dict]:
     mk = (acc or Acc(PROPERTY, "replay")).violation
     text, info = build(case)
-    settings = {"myst_footnote_sort": case["sort"], "myst_footnote_transition": case["transition"]}
+    settings = {"myst_footnote_sort": case["sort"], "myst_footnote_transition": case["transition"],
+                "myst_enable_extensions": ["attrs_block"]}
     vs = []
     frontend = "sphinx" if project is not None or case.get("frontend") == "sphinx" else "docutils"
     try:
@@ -304,7 +327,7 @@ def check_case(acc, case, project=None) -> list[dict]:
                 own = project = front.SphinxProject()
             try:
                 project.app.env.myst_config = project.app.env.myst_config.copy(
-                    footnote_sort=case["sort"], footnote_transition=case["transition"])
+                    footnote_sort=case["sort"], footnote_transition=case["transition"], enable_extensions=["attrs_block"])
                 doc, warn = project.read_doc("index", text)
             finally:
                 if own is not None:
@@ -364,6 +387,8 @@ def sub_enum(acc, shard, nshards, tier, seed):
 
 label_st = st.sampled_from(LABELS)
 reflabel_st = st.one_of(label_st, label_st, label_st, st.sampled_from(MISSING))
+name_item_st = st.builds(lambda k, L: {"t": "name", "kind": k, "label": L}, st.sampled_from(["heading", "heading", "target", "attr"]),
+                         st.sampled_from(["a", "b", "c", "note", "1"]))
 item_st = st.one_of(
     st.builds(lambda r: {"t": "para", "refs": r}, st.lists(reflabel_st, max_size=4)),
     st.builds(lambda L, w, r: {"t": "def", "label": L, "wrap": w, "refs": r}, label_st,
@@ -371,8 +396,10 @@ item_st = st.one_of(
     st.builds(lambda L, w, r: {"t": "def", "label": L, "wrap": w, "refs": r}, st.sampled_from(["a", "b", "c", "1", "2"]),
               st.sampled_from([None, None, "quote", "list", "note"]), st.just([])),
 )
-case_st = st.builds(lambda items, s, t: {"items": items, "sort": s, "transition": t},
-                    st.lists(item_st, min_size=1, max_size=14), st.booleans(), st.booleans())
+case_st = st.builds(lambda items, names, pos, s, t: {"items": (items[:pos % (len(items) + 1)] + names + items[pos % (len(items) + 1):]),
+                                                    "sort": s, "transition": t},
+                    st.lists(item_st, min_size=1, max_size=14), st.lists(name_item_st, max_size=2), st.integers(0, 14), st.booleans(),
+                    st.booleans())
 
 
 def sub_random(acc, shard, nshards, tier, seed):
